@@ -5,7 +5,7 @@ from props.common import TRUSTED_BASE, ASSUMPTIONS as _A
 ID = 'C05'
 LEAN_MODULES = ['HidVerif.Props.C05']
 THEOREMS = ['HidVerif.Props.C05.' + n for n in ('core_division_by_zero', 'div_guard_exact', 'index_guard_exact', 'length_guard_exact',
-                                                 'length_guard_arith', 'error_stub_trace')] + \
+                                                 'length_guard_arith', 'length_guard_tight', 'error_stub_trace')] + \
            ['HidVerif.Sphinx.guard_pass', 'HidVerif.Sphinx.guard_fail', 'HidVerif.Sphinx.index_guard_arith']
 TRUSTED = TRUSTED_BASE + ['Compiler/Templates.lean: hand-written guard templates, tied to the generator by the conformance check '
                           '(hidmodel conform) on every compiled program']
